@@ -3,6 +3,7 @@ package async
 import (
 	"bytes"
 	"errors"
+	"github.com/glebziz/fs_db/internal/utils/vhook"
 	"sync"
 	"sync/atomic"
 )
@@ -32,6 +33,7 @@ func (rw *readWriter) Read(p []byte) (n int, err error) {
 	defer rw.m.Unlock()
 
 	if !rw.closed.Load() && rw.buf.Len() == 0 {
+		vhook.At("rw.read.wait")
 		rw.cv.Wait()
 	}
 
@@ -55,7 +57,9 @@ func (rw *readWriter) Write(p []byte) (n int, err error) {
 
 func (rw *readWriter) Close() error {
 	rw.closed.Store(true)
+	vhook.At("rw.close.stored")
 	rw.cv.Broadcast()
+	vhook.At("rw.close.broadcast")
 	rw.Wait()
 
 	return rw.err
